@@ -46,11 +46,18 @@ Theorem bad_digest_rejected : forall (sha256 : bytes -> bytes) i cx nm c a,
 Proof. exact check_interest_bad_digest. Qed.
 Print Assumptions bad_digest_rejected.
 
-(* The table of shipped signers is re-generated from std/security on every run (GenSigners.v); every signer announces the
-   signature type its validator insists on. *)
+(* The table of shipped signers is re-generated on every run from observations of the live signer objects (GenSigners.v:
+   SigInfo(), EstimateSize(), and the type code under which the validator for that kind of key accepts a packet the signer
+   signed); every signer announces the signature type its validator insists on. *)
 Theorem shipped_signer_types_match : forallb (fun r => (sf_type r =? sf_vtype r)%Z) shipped_signers = true.
 Proof. exact shipped_types_match. Qed.
 Print Assumptions shipped_signer_types_match.
+
+(* ... reserves room for the signature it produces, and the Interest signers stay below MakeInterest's 253-octet limit. *)
+Theorem shipped_signer_estimates_admissible :
+  forallb (fun r => (0 <? sf_est r) && sf_fits r && (if sf_intfields r then sf_est r <? 253 else true)) shipped_signers = true.
+Proof. exact shipped_estimates_admissible. Qed.
+Print Assumptions shipped_signer_estimates_admissible.
 
 (* For every shipped signer type the matching validator accepts an untampered Data ... *)
 Theorem shipped_signers_validate_data : forall row, In row shipped_signers ->
